@@ -61,6 +61,8 @@ def shape_failures(spec, steps, probes, rs_seed=0):
         return []
     if any("pos" in st and E.min_separation(st["pos"]) == 0.0 for st in steps):
         return []
+    if any(a["act"] == "ref_inplace" and E.min_separation(a["pos"]) == 0.0 for st in steps for a in st.get("pre", [])):
+        return []
     res = E.run_sequence(spec, steps)
     if "err" in res:
         return ["raised %s" % res["err"]]
@@ -73,8 +75,10 @@ def shape_failures(spec, steps, probes, rs_seed=0):
     for i, c in enumerate(res["calls"]):
         # judged on the HELD result, read at the end of the sequence
         bad += _call_failures(spec, nb, per, c["pos"], c["out_end"], "call %d of the sequence (%s)" % (i, c["how"]))
-    if not np.array_equal(res["tgt_after"], tgt):
+    if not res["tgt_unchanged"]:
         bad.append("the target molecule passed to the constructor was modified by the calls")
+    if not res["eq_stable"]:
+        bad.append("the public equivalences changed between construction and the end of the sequence")
     bad = res["held_problems"][:3] + bad
     if bad or not probes:
         return bad[:5]
@@ -159,6 +163,27 @@ def _witness_sequences():
     return out
 
 
+def _witness_c03_8():
+    """seeded change C03-8 (projections computed lazily at the first call from the live construction objects): the
+    shipped curcumin pair, s = 0.5; the equivalences are read, the construction reference is given its next
+    conformation in place (every atom displaced independently) and only then the map is applied for the first time -
+    on that object, then on an independent copy in the same conformation; also with the target moved in place"""
+    rng = np.random.RandomState(7)
+    out = []
+    for spec in E.shipped_specs(40):
+        if spec["geom"] != "shipped_CUR" or spec["s"] != 0.5:
+            continue
+        ref = np.array(spec["ref"], dtype=float)
+        tgt = np.array(spec["tgt"], dtype=float)
+        new = (ref + rng.normal(scale=0.05, size=ref.shape)).tolist()
+        out.append((spec, [{"how": "inplace", "pos": new, "pre": [{"act": "read_eq"}]}, {"how": "copy", "pos": new}]))
+        out.append((spec, [{"how": "copy", "pos": new, "pre": [{"act": "read_eq"}, {"act": "tgt_inplace", "pos": (tgt + [1.0, -2.0, 0.5]).tolist()}]},
+                           {"how": "object"}]))
+        out.append((spec, [{"how": "copy", "pos": spec["ref"], "pre": [{"act": "ref_inplace", "pos": new, "via": "atoms"}]},
+                           {"how": "object"}]))
+    return out
+
+
 def _shipped(ctx):
     """the shipped pairs with a deformed conformation of the coarse-grained molecule"""
     rs = ctx.np_rng("shipped")
@@ -169,7 +194,7 @@ def _corpus_items(ctx):
     items = [(spec, _single(refp)) for spec, refp in CORPUS + _shipped(ctx)]
     items += [(spec, [{"how": "object"}] + _single(refp) + [{"how": "object"}, {"how": "inplace", "pos": np.array(refp, dtype=float).tolist()}])
               for spec, refp in CORPUS]
-    items += _witness_sequences()
+    items += _witness_sequences() + _witness_c03_8()
     return items
 
 
